@@ -82,6 +82,14 @@ PROPS = {
         "design_ref": "DESIGN.md section 7, C13",
         "assumptions": ["scalars are exact real numbers (total order, no NaN)"],
     },
+    "C16": {
+        "claimed": True,
+        "technique": "Coq proof (decision-path case analysis, lra/field/nsatz over R; convex-quadratic argument for the clamped projection; Cramer uniqueness for the ray) over programs translated from the compiled code",
+        "level_text": "Disk/Sphere containment and collision are proved to be exactly the centre-distance comparisons for ALL inputs (and the squared form for r>=0), bounds = centre -+ radius, the area/volume formulas, and moving the other shape by the collision vector leaves the centres exactly r1+r2 apart; LineSegment2/3::projected_point is proved to return a point s+t(e-s), t in [0,1], with NO point of the segment nearer (all u in [0,1]), for every segment with |e-s|^2 > eps, and the start point for degenerate ones; distance_to_point is the distance to it; Ray::triangle_intersection returns None whenever |det| < eps and otherwise Some(t) EXACTLY when the unique Cramer solution (t,u,v) of origin+t*dir = v0+u*e1+v*e2 has u,v>=0, u+v<=1 (existence and uniqueness proved). Unit tests sample two values.",
+        "level_note": "Trusted: Coq kernel; stdlib real-number axioms as printed; symx translator incl. its exact-arithmetic restatement of approx::RelativeEq for the degenerate-segment test (self-checked each run); Rust parametricity. Exact real arithmetic; 0 < eps < 1.",
+        "design_ref": "DESIGN.md section 7, C16",
+        "assumptions": ["scalars are exact real numbers", "approx::relative_eq is restated on exact reals (no infinities/NaN)"],
+    },
 }
 
 for _k in PROPS: PROPS[_k].setdefault("selfcheck", {"quick": 200, "thorough": 5000})
